@@ -46,13 +46,15 @@ pub struct LangGen {
     pub setters: Vec<String>,
     /// builtins that have been redefined in this session
     pub redefined: Vec<String>,
+    /// user macros defined at the start of the session (my-if, my-list, inc!, my-let1)
+    pub macros: bool,
 }
 
 const SYMS: &[&str] = &["a", "b", "c", "foo", "bar", "x1", "lambda-ish", "q"];
 
 impl LangGen {
     pub fn new(seed: u64) -> LangGen {
-        LangGen { rng: Rng::new(seed), globals: vec![], funcs: vec![], counter: 0, tags: vec![], fail_rate: 0, failing: false, call_limit: usize::MAX, setters: vec![], redefined: vec![] }
+        LangGen { rng: Rng::new(seed), globals: vec![], funcs: vec![], counter: 0, tags: vec![], fail_rate: 0, failing: false, call_limit: usize::MAX, setters: vec![], redefined: vec![], macros: false }
     }
 
     fn tag(&mut self, t: &str) {
@@ -217,6 +219,31 @@ impl LangGen {
             self.tag("and-or");
             return if self.rng.chance(1, 2) { format!("(or #f {})", a) } else { format!("(and 0 {})", a) };
         }
+        if self.macros && self.rng.chance(8, 100) {
+            self.tag("user-macro");
+            match (ty, self.rng.below(3)) {
+                (Ty::List, _) => {
+                    let n = self.rng.below(4);
+                    let items: Vec<String> = (0..n).map(|_| self.expr(Ty::Int, cx, depth - 1)).collect();
+                    return format!("(my-list {})", items.join(" ")).replace(" )", ")");
+                }
+                (_, 0) => {
+                    let c = self.expr(Ty::Bool, cx, depth - 1);
+                    let a = self.expr(ty, cx, depth - 1);
+                    let b = self.expr(ty, cx, depth - 1);
+                    return format!("(my-if {} {} {})", c, a, b);
+                }
+                (_, 1) => {
+                    let v = self.fresh("m");
+                    let init = self.expr(Ty::Int, cx, depth - 1);
+                    let mut cx2 = cx.to_vec();
+                    cx2.insert(0, Var { name: v.clone(), ty: Ty::Int, fresh: false, assignable: true });
+                    let body = self.expr(ty, &cx2, depth - 1);
+                    return format!("(my-let1 ({} {}) {})", v, init, body);
+                }
+                _ => {}
+            }
+        }
         if ty == Ty::Int && !self.funcs.is_empty() && self.call_limit.min(self.funcs.len()) > 0 && self.rng.chance(12, 100) {
             return self.user_call(cx, depth - 1);
         }
@@ -367,6 +394,14 @@ impl LangGen {
             .cloned()
             .collect();
         let k = self.rng.below(6);
+        if self.macros && !assignable.is_empty() && self.rng.chance(1, 4) {
+            let ints: Vec<Var> = assignable.iter().filter(|v| v.ty == Ty::Int).cloned().collect();
+            if !ints.is_empty() {
+                let v = self.rng.pick(&ints).clone();
+                self.tag("user-macro");
+                return if self.rng.chance(1, 2) { format!("(inc! {})", v.name) } else { format!("(inc! {} {})", v.name, self.int_lit()) };
+            }
+        }
         if k < 3 && !assignable.is_empty() {
             let v = self.rng.pick(&assignable).clone();
             let e = self.expr(v.ty, cx, depth);
@@ -804,6 +839,14 @@ impl LangGen {
     /// One session: returns the form texts.
     pub fn session(&mut self, nforms: usize, fail_per_form: u32) -> Vec<String> {
         let mut forms = vec![];
+        if self.rng.chance(1, 3) {
+            // user macros: each defined once, as a top-level form, before any use; templates need no renaming
+            self.macros = true;
+            forms.push("(define-syntax my-if (syntax-rules () ((_ c t e) (cond (c t) (else e)))))".to_string());
+            forms.push("(define-syntax my-list (syntax-rules () ((_ x ...) (list x ...))))".to_string());
+            forms.push("(define-syntax my-let1 (syntax-rules () ((_ (n v) body) ((lambda (n) body) v))))".to_string());
+            forms.push("(define-syntax inc! (syntax-rules () ((_ v) (set! v (+ v 1))) ((_ v n) (set! v (+ v n)))))".to_string());
+        }
         for i in 0..nforms {
             self.failing = false;
             let inject = self.rng.chance(fail_per_form, 100);
